@@ -42,28 +42,28 @@ func runC09(c *explore.Ctx) {
 	batch := c09Batch()
 	built, err := build(batch, 1025)
 	if err != nil {
-		c.R.Error = "C09 environment: " + err.Error()
+		envFail(c, "C09 environment: "+err.Error())
 		return
 	}
 	img, _, err := persist(built)
 	if err != nil {
-		c.R.Error = "C09 environment: " + err.Error()
+		envFail(c, "C09 environment: "+err.Error())
 		return
 	}
 	other, err := build([]model.Doc{gen.MixDoc(2, "o", 0), gen.MixDoc(1, "o", 1)}, 1025)
 	if err != nil {
-		c.R.Error = "C09 environment: " + err.Error()
+		envFail(c, "C09 environment: "+err.Error())
 		return
 	}
 	sameSchema, err := build(c09Batch()[:4], 1025)
 	if err != nil {
-		c.R.Error = "C09 environment: " + err.Error()
+		envFail(c, "C09 environment: "+err.Error())
 		return
 	}
 	otherImg, _, err1 := persist(other)
 	sameImg, _, err2 := persist(sameSchema)
 	if err1 != nil || err2 != nil {
-		c.R.Error = fmt.Sprint("C09 environment: ", err1, err2)
+		envFail(c, fmt.Sprint("C09 environment: ", err1, err2))
 		return
 	}
 	pt := &c09Partners{}
@@ -86,7 +86,7 @@ func runC09(c *explore.Ctx) {
 	for i, op := range menu {
 		solo[i] = guardStr(func() string { return op.run(fresh()) })
 		if strings.HasPrefix(solo[i], "ERR") || strings.HasPrefix(solo[i], "panic") {
-			c.R.Error = "C09 solo run of " + op.name + " failed: " + solo[i]
+			envFail(c, "C09 solo run of "+op.name+" failed: "+solo[i])
 			return
 		}
 	}
